@@ -152,7 +152,8 @@ class Ctx:
             lines.append("FINDING %s %s:%s %s [%s] %s" % (f.rule, f.file, f.line, f.site, f.construct, f.message))
             lines.append("VIOLATION property=%s replay=%s" % (self.pid, rp))
         self.write_evidence(len(seen), error, [f.as_dict() for f, _ in kn])
-        return lines, (2 if error else (1 if seen else 0))
+        # a violated obligation stands even if another part of the analysis could not be carried out
+        return lines, (1 if seen else (2 if error else 0))
 
     def write_evidence(self, nviol, error=None, known=()):
         discharged = sum(1 for o in self.obligations if o["verdict"] == "discharged")
